@@ -208,7 +208,8 @@ theorem move_finish {e : Env} {s : St} (hi : Inv e s) {t2 : Tree} {S D : Path} (
     (hobj : ∀ p r u, ObjAt t2 p r u ↔ ((D <+: p ∧ ObjAt s.raw (S ++ p.drop D.length) r u) ∨
       (¬ D <+: p ∧ ¬ S <+: p ∧ ObjAt s.raw p r u))) :
     ∃ missing s', findMissing ⟨t2, s.c, s.next⟩ D = .ok missing ∧
-      repairMissing e missing true ⟨t2, s.c, s.next⟩ = (.ok (), s') ∧ Inv e s' := by
+      repairMissing e missing true ⟨t2, s.c, s.next⟩ = (.ok (), s') ∧ Inv e s' ∧
+      (∀ q, q.head? ≠ some .toc → get? s'.raw q = get? t2 q) := by
   have hc2 : TocOK e ⟨t2, s.c, s.next⟩ (ObjAt s.raw) :=
     ⟨hi.toc.frame htoc, hi.scache, hi.lcache, fun p p' r r' u => hi.mok.uniq p p' r r' u⟩
   have hmiss : findMissing ⟨t2, s.c, s.next⟩ D = .ok (objsBelow t2 D) := by
@@ -249,7 +250,7 @@ theorem move_finish {e : Env} {s : St} (hi : Inv e s) {t2 : Tree} {S D : Path} (
       obtain ⟨c', rfl⟩ := hpre'
       simp only [drop_append_self] at this
       exact hne (by rw [List.append_cancel_left this]))
-  refine ⟨_, s', hmiss, hrun', ?_⟩
+  refine ⟨_, s', hmiss, hrun', ?_, step'.frame⟩
   have hobj' : ∀ q r u, ObjAt s'.raw q r u ↔ ObjAt t2 q r u := ObjAt.congr step'.frame
   have hL' : ∀ q r u, ObjAt s'.raw q r u ↔ Relinked (ObjAt s.raw) (objsBelow t2 D) q r u := by
     intro q r u
@@ -291,24 +292,40 @@ theorem move_finish {e : Env} {s : St} (hi : Inv e s) {t2 : Tree} {S D : Path} (
 
 /-! ### assembling `move` -/
 
+/-- What `move` leaves behind: the invariant; nothing outside the moved node (and, for a dataset,
+its metadata directory) is touched; and if the operation succeeded the node with everything below
+it (for a dataset: the node and its metadata directory) is found unchanged at the new place. -/
+def MovePost (e : Env) (s : St) (src dst : Path) (r : Res Unit) : Prop :=
+  Inv e r.2 ∧
+  (∀ q n, q.head? ≠ some .toc → get? s.raw q = some n → ¬ src <+: q →
+    (∀ k, nodeKind s src = some k → ¬ metaBase src k <+: q) → get? r.2.raw q = some n) ∧
+  (r.1 = .ok () →
+    (nodeKind s src = some false → ∀ c, get? r.2.raw (dst ++ c) = get? s.raw (src ++ c)) ∧
+    (nodeKind s src = some true → get? r.2.raw dst = get? s.raw src ∧
+      ∀ c, get? r.2.raw (metaBase dst true ++ c) = get? s.raw (metaBase src true ++ c)))
+
+theorem MovePost.err {e : Env} {s : St} (hi : Inv e s) (src dst : Path) (err : Err) :
+    MovePost e s src dst (.error err, s) :=
+  ⟨hi, fun _ _ _ h _ _ => h, fun h => by cases h⟩
+
 /-- `group.move(source, dest)`: success or failure. The last name of `dest` must not be empty
 (HDF5 names never are; `Key.user ""` is an artefact of the structured names of this model). -/
-theorem opMove_inv {e : Env} {s : St} (hi : Inv e s) (src dst : Path)
-    (hname : dst.getLast? ≠ some (.user "")) : Inv e (opMove e src dst s).2 := by
+theorem opMove_spec {e : Env} {s : St} (hi : Inv e s) (src dst : Path)
+    (hname : dst.getLast? ≠ some (.user "")) : MovePost e s src dst (opMove e src dst s) := by
   unfold opMove guardPath
   cases hsi : isInternal src with
-  | true => simpa [hsi] using hi
+  | true => simpa [hsi] using MovePost.err hi src dst .value
   | false =>
     cases hdi : isInternal dst with
-    | true => simpa [hdi] using hi
+    | true => simpa [hdi] using MovePost.err hi src dst .value
     | false =>
       simp only [Bool.false_eq_true, if_false, bind, M.bind, run_pure, run_getSt]
       cases hk : nodeKind s src with
-      | none => simpa using hi
+      | none => simpa [hk] using MovePost.err hi src dst .key
       | some k =>
         simp only [run_ofOpt_some, run_liftRaw]
         cases hmv : rawMove s.raw src dst with
-        | error err => simpa using hi
+        | error err => simpa [hk] using MovePost.err hi src dst err
         | ok t1 =>
           simp only []
           have ht := hi.treeOK
@@ -316,16 +333,24 @@ theorem opMove_inv {e : Env} {s : St} (hi : Inv e s) (src dst : Path)
           have hreb1 := rebased_of_move hmv ht.pclosed
           have htoc1 : ∀ q, q.head? = some .toc → get? t1 q = get? s.raw q :=
             rebased_toc hreb1 hd0 (isInternal_head_ne_toc hdi) hs0 (isInternal_head_ne_toc hsi)
-          have hdst1 : get? t1 dst = get? s.raw src := by
-            have := hreb1 dst hd0
-            rw [if_pos (List.prefix_refl _)] at this
-            simpa using this
+          have hgd1 : ∀ c, get? t1 (dst ++ c) = get? s.raw (src ++ c) := by
+            intro c
+            rw [hreb1 _ (by simp [hd0]), if_pos (List.prefix_append _ _), drop_append_self]
+          have hdst1 : get? t1 dst = get? s.raw src := by simpa using hgd1 []
           have hkd : nodeKind ⟨t1, s.c, s.next⟩ dst = some k := by
             rw [← nodeKind_of_get (s := s) (p := src) hdst1.symm]; exact hk
           simp only [hkd, run_ofOpt_some]
           have hold : ∀ p r u, ObjAt s.raw p r u → ¬ dst <+: p := by
             rintro p r u ⟨_, _, _, _, hg⟩ hpre
             exact hg (none_below_free ht.pclosed hfree hpre)
+          -- what existed elsewhere is still there after the first `raw.move`
+          have keep1 : ∀ q n, get? s.raw q = some n → ¬ src <+: q → get? t1 q = some n := by
+            intro q n hq hns
+            by_cases hq0 : q = []
+            · subst hq0; simpa using hq
+            · have hnd : ¬ dst <+: q := fun hp => by
+                rw [none_below_free ht.pclosed hfree hp] at hq; cases hq
+              rw [hreb1 q hq0, if_neg hnd, if_neg (fun h => hns h.2), hq]; rfl
           cases k with
           | false =>
             have hgrp : get? s.raw src = some .grp := by
@@ -335,9 +360,14 @@ theorem opMove_inv {e : Env} {s : St} (hi : Inv e s) (src dst : Path)
             obtain ⟨ht1, hobj1⟩ := treeOK_move_group ht hsi hdi hgrp hmv
             have hhas : has t1 dst = true := has_iff.mpr (by rw [hdst1, hgrp]; simp)
             simp only [Bool.false_eq_true, if_false, run_pure, run_getSt, hhas, if_true, bind, M.bind]
-            obtain ⟨missing, s', hmiss, hrun', hinv'⟩ := move_finish hi ht1 htoc1 hd0 (isInternal_head_ne_toc hdi)
+            obtain ⟨missing, s', hmiss, hrun', hinv', hfr'⟩ := move_finish hi ht1 htoc1 hd0 (isInternal_head_ne_toc hdi)
               (fun r u ho => by rw [ho.internal] at hdi; cases hdi) hold hobj1
-            simp only [hmiss, hrun']; exact hinv'
+            simp only [hmiss, hrun']
+            refine ⟨hinv', fun q n hqt hq hns _ => ?_, fun _ => ⟨fun _ c => ?_, fun h => (by rw [hk] at h; cases h)⟩⟩
+            · show get? s'.raw q = some n
+              rw [hfr' q hqt]; exact keep1 q n hq hns
+            · show get? s'.raw (dst ++ c) = _
+              rw [hfr' _ (head_append_ne_toc c hd0 (isInternal_head_ne_toc hdi))]; exact hgd1 c
           | true =>
             obtain ⟨v, hv⟩ : ∃ v, get? s.raw src = some (.ds v) := by
               rcases nodeKind_some hk with ⟨h, -⟩ | ⟨-, v, hv⟩
@@ -350,12 +380,13 @@ theorem opMove_inv {e : Env} {s : St} (hi : Inv e s) (src dst : Path)
             obtain ⟨ht1x, hobj1, hint1, hdv⟩ := treeOK_move_ds ht hb hsi hdi hv hmv
             simp only [metaBase_ds, if_true]
             -- the directory name of the destination is free
-            have hfree2 : get? t1 (b' ++ [.metaDir m']) = none := by
-              rw [hint1 _ (isInternal_metaDir b' m' [])]
+            have hfree2s : get? s.raw (b' ++ [.metaDir m']) = none := by
               by_contra hg
               rcases ht.host_ds b' m' hb' hg (fun h => h) with h | ⟨v', hv'⟩
               · exact hm' h
               · rw [hfree] at hv'; cases hv'
+            have hfree2 : get? t1 (b' ++ [.metaDir m']) = none := by
+              rw [hint1 _ (isInternal_metaDir b' m' [])]; exact hfree2s
             have hold1 : ∀ q r u, ObjAt s.raw q r u → ¬ b' ++ [Key.metaDir m'] <+: q := by
               rintro q r u ho hpre
               have h1 := (hobj1 q r u).mpr ho
@@ -368,7 +399,14 @@ theorem opMove_inv {e : Env} {s : St} (hi : Inv e s) (src dst : Path)
               simp only [run_getSt, hsm, Bool.false_eq_true, if_false, run_pure, hhas2, bind, M.bind]
               have ht1 : TreeOK e t1 := ht1x.weaken (fun base mm _ hg hex => by
                 rw [hex, hsm'] at hg; exact hg rfl)
-              exact inv_of_same_objs hi ht1 htoc1 hobj1
+              refine ⟨inv_of_same_objs hi ht1 htoc1 hobj1, fun q n _ hq hns _ => keep1 q n hq hns,
+                fun _ => ⟨fun h => (by rw [hk] at h; cases h), fun _ => ⟨hdst1, fun c => ?_⟩⟩⟩
+              rw [metaBase_ds, metaBase_ds]
+              show get? t1 (b' ++ [.metaDir m'] ++ c) = get? s.raw (b ++ [.metaDir m] ++ c)
+              rw [none_below_free ht1x.pclosed hfree2 (List.prefix_append _ _)]
+              have hsrcm : get? s.raw (b ++ [.metaDir m]) = none := by
+                rw [← hint1 _ (isInternal_metaDir b m [])]; exact hsm'
+              rw [none_below_free ht.pclosed hsrcm (List.prefix_append _ _)]
             | true =>
               have hsm' : get? t1 (b ++ [.metaDir m]) ≠ none := has_iff.mp hsm
               have hne : b ++ [Key.metaDir m] ≠ b' ++ [.metaDir m'] := by
@@ -395,20 +433,52 @@ theorem opMove_inv {e : Env} {s : St} (hi : Inv e s) (src dst : Path)
               have hreb2 := rebased_of_move hmv2 ht1x.pclosed
               have htoc2 : ∀ q, q.head? = some .toc → get? t2 q = get? s.raw q := fun q hq =>
                 (rebased_toc hreb2 hd0' (objPath_head hb') hs0' (objPath_head hb) q hq).trans (htoc1 q hq)
-              have hdm2 : get? t2 (b' ++ [.metaDir m']) = get? t1 (b ++ [.metaDir m]) := by
-                have := hreb2 (b' ++ [.metaDir m']) hd0'
-                rw [if_pos (List.prefix_refl _)] at this
-                simpa using this
-              have hhas2 : has t2 (b' ++ [.metaDir m']) = true := has_iff.mpr (by rw [hdm2]; exact hsm')
+              have hgd2 : ∀ c, get? t2 (b' ++ [.metaDir m'] ++ c) = get? t1 (b ++ [.metaDir m] ++ c) := by
+                intro c
+                rw [hreb2 _ (by simp), if_pos (List.prefix_append _ _), drop_append_self]
+              have hhas2 : has t2 (b' ++ [.metaDir m']) = true :=
+                has_iff.mpr (by have := hgd2 []; simp only [List.append_nil] at this; rw [this]; exact hsm')
               simp only [hhas2, if_true]
-              obtain ⟨missing, s', hmiss, hrun', hinv'⟩ := move_finish (S := b ++ [.metaDir m]) hi ht2 htoc2 hd0' (objPath_head hb')
+              obtain ⟨missing, s', hmiss, hrun', hinv', hfr'⟩ := move_finish (S := b ++ [.metaDir m]) hi ht2 htoc2 hd0'
+                (objPath_head hb')
                 (fun r u ho => by
                   obtain ⟨_, _, _, hp, -⟩ := ho
                   have := congrArg List.getLast? hp; simp at this)
                 hold1
                 (fun p r u => by
                   rw [hobj2, hobj1, hobj1])
-              simp only [hmiss, hrun']; exact hinv'
+              simp only [hmiss, hrun']
+              -- non-reserved paths of the second tree
+              have keep2 : ∀ q n, get? t1 q = some n → ¬ b ++ [Key.metaDir m] <+: q → get? t2 q = some n := by
+                intro q n hq hns
+                by_cases hq0 : q = []
+                · subst hq0; simpa using hq
+                · have hnd : ¬ b' ++ [Key.metaDir m'] <+: q := fun hp => by
+                    rw [none_below_free ht1x.pclosed hfree2 hp] at hq; cases hq
+                  rw [hreb2 q hq0, if_neg hnd, if_neg (fun h => hns h.2), hq]; rfl
+              have hnpd : ∀ (a : Path) (x : String) (base : Path) (y : String), isInternal base = false →
+                  ¬ a ++ [Key.metaDir x] <+: base ++ [.user y] := by
+                intro a x base y hbase hp
+                rcases prefix_snoc_iff.mp hp with h | h
+                · have := congrArg List.getLast? h; simp at this
+                · have := isInternal_prefix h hbase
+                  rw [isInternal_metaDir a x []] at this; cases this
+              refine ⟨hinv', fun q n hqt hq hns hnm => ?_, fun _ => ⟨fun h => (by rw [hk] at h; cases h), fun _ => ⟨?_, fun c => ?_⟩⟩⟩
+              · show get? s'.raw q = some n
+                rw [hfr' q hqt]
+                exact keep2 q n (keep1 q n hq hns) (by simpa [metaBase_ds] using hnm true hk)
+              · show get? s'.raw (b' ++ [.user m']) = _
+                rw [hfr' _ (user_head m' hb')]
+                rw [← hdst1]
+                exact keep2 _ _ hdv (hnpd _ _ _ _ hb') |>.trans hdv.symm
+              · rw [metaBase_ds, metaBase_ds]
+                show get? s'.raw (b' ++ [.metaDir m'] ++ c) = get? s.raw (b ++ [.metaDir m] ++ c)
+                rw [hfr' _ (by rw [List.append_assoc]; exact objPath_head hb'), hgd2 c,
+                  hint1 _ (by rw [List.append_assoc]; exact isInternal_metaDir b m _)]
+
+theorem opMove_inv {e : Env} {s : St} (hi : Inv e s) (src dst : Path)
+    (hname : dst.getLast? ≠ some (.user "")) : Inv e (opMove e src dst s).2 :=
+  (opMove_spec hi src dst hname).1
 
 /-! ### all operations -/
 
